@@ -23,6 +23,11 @@
 (*                 component, or one of two asymmetric library functions,  *)
 (*                 applied to its base arguments in another order (one     *)
 (*                 Python function shared by several components)           *)
+(*   UseBody       instead: a MULTI-STATEMENT library body (early-return   *)
+(*                 guard, local assignment named like a model component,   *)
+(*                 if/else returning twice, code after an if): not         *)
+(*                 exportable - write must raise, or the re-import must    *)
+(*                 equal Run(body)                                         *)
 (*   Commit        the slot enters the model; a reaction also takes a      *)
 (*                 stoichiometry from a menu with numeric, fractional and  *)
 (*                 COMPUTED coefficients of either sign (parameter-, state-*)
@@ -63,7 +68,7 @@
 (* reactant, a chained comparison keeps its first link): TLC must find a   *)
 (* member of the family on which it changes a derivative (teeth).          *)
 (***************************************************************************)
-EXTENDS PyFn, TLC, Json
+EXTENDS Piecewise, TLC, Json
 
 CONSTANTS
     MaxVars,        \* 1..MaxVars plain variables x, y, z
@@ -95,12 +100,18 @@ A == Var("a")  B == Var("b")
 FT == [hlp |-> FnDef(<<"a", "b">>, <<Ret(Bin("sub", A, B))>>), pi |-> ConstDef(Skip)]
 AllParams == <<"a", "b", "c">>
 
-FnRec(params, e) == [params |-> params, e |-> e]
+\* A function is [params, e, body]: body is what Python runs (statements of module PyFn), e is the same meaning as ONE
+\* expression.  For the single-expression functions body = <<Ret(e)>>; for the multi-statement library bodies e is the
+\* reference translation of module Piecewise (path conditions, locals substituted); BodyAgrees (TLC-checked) ties them.
+FnRec(params, e) == [params |-> params, e |-> e, body |-> <<Ret(e)>>]
+BodyRec(params, body) == [params |-> params, e |-> PWExpr(ToPW(params, body, RefMode)), body |-> body]
+SingleExpr(f) == f.body = <<Ret(f.e)>>
 ParamsOf(e) == SelectSeq(AllParams, LAMBDA p : p \in FreeVars(e))
 FnOf(e) == FnRec(ParamsOf(e), e)
 
 XApply(fn, vals) ==
-    LET v == Eval(fn.e, ArgEnv(fn.params, vals), FT) IN IF IsBoolV(v) THEN Skip ELSE v
+    LET r == Run(fn.body, ArgEnv(fn.params, vals), FT)
+    IN IF r.st = "ret" THEN (IF IsBoolV(r.v) THEN Skip ELSE r.v) ELSE IF r.st = "skip" THEN Skip ELSE Undef
 
 \* MxlModel sums the flux terms of a variable by folding over the SET of flux names.  RAdd is strict, left operand
 \* first, so which non-number a sum with two bad terms yields would depend on the traversal order, i.e. on the names.
@@ -322,12 +333,15 @@ Reuse ==
           /\ \A m \in Earlier : m > j => Len(UseOf(m).fn.params) < 2          \* the most recent eligible one
           /\ \E as \in {Swap(UseOf(j).args), Rot(UseOf(j).args)} : TakeFn(UseOf(j).fn, as)
 
-\* Two asymmetric LIBRARY functions (every permutation of their arguments changes the value), offered to every
+\* Asymmetric LIBRARY functions (every permutation of their arguments changes the value), offered to every
 \* derived-quantity / reaction slot with their base arguments in order, swapped or rotated.  Several components of
 \* one model therefore share `def f(a, b)` / `def g(a, b, c)` with different argument lists; under the scheme
 \* "formal" the base arguments are the model names that coincide with the function's own parameter names.
+\* ... and a chained comparison with two DIFFERENT operators that is decided by its second link at a tie
+\* (1 < a <= b with a = b = 3 at the second state for the base arguments x, p): exact arithmetic, never fragile.
 Lib == {FnRec(<<"a", "b">>, Bin("sub", A, Bin("mul", Num(2), B))),
-        FnRec(<<"a", "b", "c">>, Bin("sub", Bin("mul", A, B), Bin("mul", Num(3), Var("c"))))}
+        FnRec(<<"a", "b", "c">>, Bin("sub", Bin("mul", A, B), Bin("mul", Num(3), Var("c")))),
+        FnRec(<<"a", "b">>, Ite(Cmp(<<"lt", "le">>, <<Num(1), A, B>>), Bin("add", A, B), Bin("sub", B, Bin("mul", Num(2), A))))}
 LibBase(f) == IF scheme = "formal" THEN [k \in DOMAIN f.params |-> InvFormal[f.params[k]]]
               ELSE SubSeq(<<"x", "p", "q">>, 1, Len(f.params))
 UseLib ==
@@ -337,7 +351,39 @@ UseLib ==
           /\ SeqRange(base) \subseteq Pool
           /\ \E as \in {base, Swap(base), Rot(base)} : TakeFn(f, as)
 
-Next == Expand \/ PickArg \/ PickFormal \/ Commit \/ Reuse \/ UseLib
+\* MULTI-STATEMENT bodies, just outside what the exporter can write (an SBML formula is one expression): an early-return
+\* guard, a local assignment whose name coincides with a model component (p always, y when the model has one), if / else
+\* returning in both branches, code after an if that assigns, the "cap" guard on a third argument.  The specification's
+\* verdict: `write` must raise - or, should an exporter handle them, the re-import must equal Run(body), which is what
+\* the predictions are computed from.  The base arguments put the states on both sides of every guard
+\* (x = 2, 3, 0 against the literal 2; x against q = 1/2).
+BodyLib ==
+    {BodyRec(<<"a", "b">>, <<If(Cmp2("gt", A, Num(2)), <<Ret(Bin("mul", B, Num(2)))>>, <<>>), Ret(Bin("mul", B, A))>>),
+     BodyRec(<<"a", "b">>, <<Assign("p", Bin("mul", A, A)), Ret(Bin("mul", B, Var("p")))>>),
+     BodyRec(<<"a", "b">>, <<Assign("y", Bin("add", A, Num(1))), Ret(Bin("sub", Var("y"), B))>>),
+     BodyRec(<<"a", "b">>, <<If(Cmp2("lt", A, Num(2)), <<Ret(Bin("add", A, B))>>, <<Ret(Bin("sub", A, B))>>)>>),
+     BodyRec(<<"a", "b">>, <<Assign("z", A), If(Cmp2("gt", A, B), <<Assign("z", B)>>, <<>>), Ret(Bin("add", Var("z"), Num(1)))>>),
+     BodyRec(<<"a", "b", "c">>, <<If(Cmp2("gt", A, Var("c")), <<Ret(Bin("mul", B, Var("c")))>>, <<>>), Ret(Bin("mul", B, A))>>)}
+\* Only the LAST slot may take one (a model with one such body is refused as a whole, more of them add nothing), and a
+\* reaction gets the stoichiometry {x: -1}: the successor set stays small and most models remain exportable.
+UseBody ==
+    /\ AtSlotStart /\ i = Len(slots)
+    /\ \E f \in BodyLib :
+          LET base == LibBase(f) IN
+          /\ SeqRange(base) \subseteq Pool
+          /\ \E as \in {base, Swap(base)} :
+                LET s == slots[i] IN
+                \/ /\ s.kind = "der"
+                   /\ c' = [c EXCEPT !.der = @ @@ (s.name :> [fn |-> f, args |-> as])]
+                \/ /\ s.kind = "rxn"
+                   /\ c' = [c EXCEPT !.rxn = @ @@ (s.name :> [fn |-> f, args |-> as, st |-> ("x" :> M!Num(RFromInt(0 - 1)))])]
+    /\ i' = i + 1
+    /\ toks' = <<>>
+    /\ todo' = <<>>
+    /\ args' = <<>>
+    /\ UNCHANGED <<slots, scheme>>
+
+Next == Expand \/ PickArg \/ PickFormal \/ Commit \/ Reuse \/ UseLib \/ UseBody
 
 Spec == Init /\ [][Next]_vars
 
@@ -451,8 +497,9 @@ Predict(cc, p) ==
 Scenario ==
     [c |-> RenContent(c), scheme |-> scheme, wf |-> M!OutcomeKinds(c),
      kinds |-> RenTab(KindsOf(c)),
-     exportable |-> \A f \in FnsOf(c) : Exportable(f.e),
-     must |-> \A f \in FnsOf(c) : MustExport(f.e),
+     exportable |-> \A f \in FnsOf(c) : SingleExpr(f) /\ Exportable(f.e),
+     must |-> \A f \in FnsOf(c) : SingleExpr(f) /\ MustExport(f.e),
+     multi |-> \E f \in FnsOf(c) : ~SingleExpr(f),
      opaque |-> \E f \in FnsOf(c) : Opaque(f.e),
      init |-> RenTab(M!InitialValues(c)),
      parvals |-> RenTab(M!ParameterValues(c)),
@@ -489,6 +536,18 @@ RenameInvariant ==
                 /\ M!ArgsAt(r, RenTab(p.y), p.t) = RenTab(M!ArgsAt(c, p.y, p.t))
                 /\ M!InitialValues(r) = RenTab(M!InitialValues(c))
 
+\* the one-expression reading e of every function agrees with what Python runs (body), at every point and use
+BodyAgrees ==
+    WF => \A j \in DOMAIN Points :
+             LET a == M!ArgsAt(c, Points[j].y, Points[j].t) IN
+             \A u \in Uses(c) :
+                LET env == ArgEnv(u.fn.params, M!ArgVals(u.args, a))
+                    r == Run(u.fn.body, env, FT)
+                    v == Eval(u.fn.e, env, FT)
+                IN r.st = "ret" => (v = r.v \/ v = Skip)
+\* used NEGATED: a finished model with a multi-statement body is reachable
+NoMulti == ~(Done /\ \E f \in FnsOf(c) : ~SingleExpr(f))
+
 \* two components sharing one function (same record) with different argument lists
 Shared(cc) == \E d \in DOMAIN cc.der, r \in DOMAIN cc.rxn :
                  cc.der[d].fn = cc.rxn[r].fn /\ cc.der[d].args # cc.rxn[r].args /\ Len(cc.der[d].fn.params) >= 2
@@ -513,7 +572,7 @@ Trunc(e) ==
     ELSE IF e.k = "ite" THEN [e EXCEPT !.c = Trunc(e.c), !.a = Trunc(e.a), !.b = Trunc(e.b)]
     ELSE IF e.k \in NaryOps THEN [e EXCEPT !.args = [j \in DOMAIN e.args |-> Trunc(e.args[j])]]
     ELSE e
-PinFn(f) == [f EXCEPT !.e = Trunc(f.e)]
+PinFn(f) == IF SingleExpr(f) THEN FnRec(f.params, Trunc(f.e)) ELSE f
 PinCoef(co) == IF co.k = "num" THEN co ELSE [co EXCEPT !.fn = FnRec(co.fn.params, Neg(Trunc(co.fn.e)))]
 PinnedContent(cc) ==
     [cc EXCEPT !.der = [d \in DOMAIN cc.der |-> [cc.der[d] EXCEPT !.fn = PinFn(@)]],
